@@ -945,7 +945,7 @@ package builder
 // every growth attempt runs with the previous result seeded in the memo, from the start position
 //@   before parser.parseRule assert [seeded C08] p.pt == startMark && MemoHas(p, startMark.offset, rule) && p.memo[startMark.offset][rule] == lastResult
 // a successful first attempt is always accepted (the base alternatives may match the empty string)
-//@   before parser.restore#3 assert [accept-base C08] ok ==> depth > 0
+//@   at "*p.errs = lastErrors" assert [accept-base C08] ok ==> depth > 0
 // errors (and state changes) of the final, non-extending attempt are not retained
 //@   before parser.setMemoized#2 assert [retain-no-errors C08 C11] *p.errs == lastErrors
 //@ #if state
